@@ -2,7 +2,8 @@
 //! Oracle independent of the Lean model: `serde_json::to_string` succeeds, one line, parses, no
 //! duplicate key at any depth (checked on the raw text, not after parsing), `df`/`icao24` equal the
 //! downlink format and the address carried by the frame, a timed record keeps the frame as hex and
-//! decoding that hex again gives the same fields.
+//! decoding that hex again gives the same fields; no NaN/inf inside the decoded value (`non-finite`, on its
+//! `Debug` rendering — JSON shows them as `null`) and no `null` that is not a `None` (`null-without-none`).
 use crate::common::*;
 use crate::decgen::*;
 use rs1090::prelude::*;
@@ -61,6 +62,46 @@ fn dup_key(s: &str) -> Result<(), String> {
     Ok(())
 }
 
+fn is_word(c: u8) -> bool {
+    c.is_ascii_alphanumeric() || c == b'_'
+}
+/// occurrences of `tok` as a whole word of `s`
+fn count_token(s: &str, tok: &str) -> usize {
+    let b = s.as_bytes();
+    s.match_indices(tok)
+        .filter(|(i, _)| (*i == 0 || !is_word(b[*i - 1])) && (*i + tok.len() >= b.len() || !is_word(b[*i + tok.len()])))
+        .count()
+}
+/// `NaN` / `inf` as a whole word of a `Debug` rendering (what `f64`/`f32` print for a non-finite value)
+fn non_finite_token(dbg: &str) -> Option<&'static str> {
+    ["NaN", "inf"].into_iter().find(|t| count_token(dbg, t) > 0)
+}
+fn count_nulls(v: &serde_json::Value) -> usize {
+    match v {
+        serde_json::Value::Null => 1,
+        serde_json::Value::Array(a) => a.iter().map(count_nulls).sum(),
+        serde_json::Value::Object(o) => o.values().map(count_nulls).sum(),
+        _ => 0,
+    }
+}
+
+/// keys of every `null` value, at any depth
+fn null_keys(v: &serde_json::Value, acc: &mut Vec<String>) {
+    match v {
+        serde_json::Value::Array(a) => a.iter().for_each(|x| null_keys(x, acc)),
+        serde_json::Value::Object(o) => {
+            for (k, x) in o {
+                if x.is_null() {
+                    acc.push(k.clone());
+                } else {
+                    null_keys(x, acc);
+                }
+            }
+        }
+        _ => {}
+    }
+}
+
 fn oracle(out: &mut Out, bytes: &[u8], op: &str) -> String {
     let (d, msg) = decode_json(bytes);
     let ans = dec_answer(&d);
@@ -83,8 +124,37 @@ fn oracle(out: &mut Out, bytes: &[u8], op: &str) -> String {
                     if let Err(k) = dup_key(j) {
                         out.fail("duplicate-key", op, &format!("key {k} twice in one object"));
                     }
-                    if j.contains("NaN") || j.contains("inf") && !j.contains("\"no_information\"") && !j.contains("information") {
-                        out.fail("non-finite", op, "NaN/inf in output");
+                    // a non-finite float is printed as `null` by serde_json, so the JSON text cannot show it (audit e
+                    // F5): look at the decoded value itself, as C08 does — f64's Debug prints `NaN`, `inf`, `-inf`
+                    if let Some(m) = &msg {
+                        let dbg = format!("{m:?}");
+                        if let Some(t) = non_finite_token(&dbg) {
+                            out.fail("non-finite", op, &format!("{t} inside the decoded message"));
+                        }
+                        // … and at the text from the other side: serde writes `null` for an `Option::None` (no reader of
+                        // the decoder writes one by hand, no custom serialiser calls `serialize_none`), so a record with
+                        // more `null` values than the decoded value has `None`s shows a number that could not be
+                        // written — also when it was computed inside a serialiser and is no field of the value
+                        let nulls = count_nulls(&v);
+                        let nones = count_token(&dbg, "None");
+                        if nulls > nones {
+                            out.fail("null-without-none", op, &format!("{nulls} null values in the JSON, {nones} None in the decoded message: {j}"));
+                        } else if nulls > 0 {
+                            out.stat("json:with-null");
+                        }
+                        // key by key: a key shown as `null` whose field of the same name is in the decoded value, and
+                        // nowhere `None` there, had a value that could not be written (a field renamed by serde has no
+                        // namesake in the `Debug` rendering and is left to the two tests above)
+                        let mut keys = vec![];
+                        null_keys(&v, &mut keys);
+                        for k in keys {
+                            let pat = format!("{k}: ");
+                            let b = dbg.as_bytes();
+                            let occ: Vec<usize> = dbg.match_indices(&pat).filter(|(i, _)| *i == 0 || !is_word(b[*i - 1])).map(|(i, _)| i + pat.len()).collect();
+                            if !occ.is_empty() && !occ.iter().any(|i| dbg[*i..].starts_with("None")) {
+                                out.fail("null-without-none", op, &format!("key {k} is null in the JSON; the decoded message has {k}: {}", dbg[occ[0]..].chars().take(24).collect::<String>()));
+                            }
+                        }
                     }
                     if [0u8, 4, 5, 11, 16, 17, 18, 20, 21].contains(&df) {
                         let want_df = format!("{df}");
